@@ -637,3 +637,70 @@ class Grid2DCopyFromExtent(Contract):
 
 
 CONTRACTS = [MaskByExtent, BoxIntersect, PointsMaskByExtent, CellMaskByExtent, DataMaskByExtent, GridMaskByExtent, Grid2DCopyFromExtent, ContainerCopyFromExtent, GroupCopyFromExtent]
+
+
+class DataCopyMasked(Contract):
+    """Data.copy with a mask: onto a smaller parent the copy holds exactly the selected entries in
+    order; onto a parent of the same size it holds the selected entries in place and no-data
+    elsewhere; in both cases the source's own values are neither modified nor shared."""
+    target = "geoh5py/data/data.py::Data.copy"
+    props = ("C13", "C12", "C07")
+    attr_overrides = {"values": lambda I, obj: obj.fields["_values"], "association": lambda I, obj: obj.fields["_association"],
+                      "parent": lambda I, obj: obj.fields["_parent"], "nan_value": lambda I, obj: obj.fields["_nan"]}
+    trusted = ("Data.values / association / parent / nan_value getters return the stored fields",)
+
+    def cases(self):
+        return [(assoc, size) for assoc in ("VERTEX", "CELL") for size in ("smaller-parent", "same-size-parent")]
+
+    def setup(self, ctx):
+        from geoh5py.data import DataAssociationEnum as A_, FloatData
+
+        assoc, size = ctx.case
+        n = ctx.int("n", 1)
+        V = sym_arr("values", (n.e,), "real")
+        V.frozen = True
+        M = sym_arr("mask", (n.e,), "bool")
+        m = ctx.int("target_count", 0)
+        ctx.assume(m.e < n.e if size == "smaller-parent" else m.e >= n.e)
+        passed = {}
+
+        def copy_to_parent(I, a, kw):
+            passed.update(kw)
+            I.event("copy_to_parent", entity=a[0], parent=a[1])
+            return AbsObj("new-data", {})
+
+        target = AbsObj("target-parent", {"n_vertices": m if assoc == "VERTEX" else mk(z3.IntVal(-7), "int"), "n_cells": m if assoc == "CELL" else mk(z3.IntVal(-7), "int"),
+                                          "workspace": AbsObj("workspace", {}, {"copy_to_parent": copy_to_parent})})
+        nan = sym("nan_value", "real")
+        me = Obj(FloatData, {"_values": V, "_association": getattr(A_, assoc), "_parent": AbsObj("own-parent", {}), "_nan": nan})
+        ctx.env.update(V=V, M=M, n=n, nan=nan, passed=passed, target=target)
+        return [me], {"parent": target, "mask": M}
+
+    def post(self, ctx, result):
+        e = ctx.env
+        assoc, size = ctx.case
+        W = e["passed"].get("values")
+        ok = isinstance(W, Arr) and W.ndim == 1
+        ctx.oblige("the-copy-is-given-an-array-of-values", ok)
+        mutated = [p for k, p in ctx.path.events if k == "mutate" and p.get("frozen")]
+        ctx.oblige("the-sources-values-are-not-modified", not mutated, note="the source data's own array is written to while it is copied")
+        if not ok:
+            return
+        ctx.oblige("the-copy-does-not-share-the-sources-array", W is not e["V"])
+        i = z3.Int(fresh_name("i"))
+        if size == "same-size-parent":
+            ctx.oblige("one-entry-per-source-entry", Z(W.shape[0]) == e["n"].e)
+            ctx.oblige("selected-entries-keep-their-value-others-are-no-data",
+                       z3.Implies(z3.And(i >= 0, i < e["n"].e), W.elem(i) == z3.If(e["M"].elem(i), e["V"].elem(i), e["nan"].e)))
+        else:
+            sel = getattr(W, "sel", None)
+            ctx.oblige("the-copy-holds-a-selection-of-the-source", sel is not None)
+            if sel is not None:
+                _, keep, pos, rank = sel
+                mm = Z(W.shape[0])
+                ctx.oblige("exactly-the-selected-entries-in-order", z3.Implies(z3.And(i >= 0, i < mm), z3.And(W.elem(i) == e["V"].elem(pos(i)), e["M"].elem(pos(i)))))
+                j = z3.Int(fresh_name("j"))
+                ctx.oblige("every-selected-entry-is-kept", z3.Implies(z3.And(j >= 0, j < e["n"].e, e["M"].elem(j)), z3.And(rank(j) < mm, pos(rank(j)) == j)))
+
+
+CONTRACTS = CONTRACTS + [DataCopyMasked]
